@@ -16,6 +16,17 @@ from props import PROPS  # noqa: E402
 
 # operations whose expected answer is fixed by the property (the implementation side always prints the
 # answer the property demands); the Lean side evaluates the specification predicate on the implementation's value
+# (suite, op) pairs whose Lean side is a SPECIFICATION proved or written independently of the code: a
+# disagreement is a concrete input on which the implementation departs from it.
+DIRECT_BY_SUITE = {
+    ("argon", "argon2rfc"): ("differs-from-rfc", "Key differs from the RFC 9106 reference evaluated in Lean"),
+    ("argon", "argon2key"): ("differs-from-rfc", "Key differs from the Lean model (proved equal to the RFC 9106 reference: C04.key_eq_rfc)"),
+    ("argon", "hprime"): ("differs-from-rfc", "the variable-length hash H' differs from RFC 9106 §3.3 (model proved equal: C04.blake2bHash_eq_H')"),
+    ("argon", "block"): ("differs-from-rfc", "the compression function G differs from RFC 9106 §3.5 (model proved equal: C04.processBlock_eq_G)"),
+    ("argon", "ialpha"): ("differs-from-rfc", "the reference index differs from RFC 9106 §3.4 (kernel regenerated from source; C04.indexAlpha_eq_refIndex)"),
+    ("argonsched", "argon2key"): ("differs-from-sequential", "the key computed by the concurrent lanes differs from the sequential evaluation (C09.key_schedule_independent)"),
+    ("salt", "newhash"): ("salt", "the generated hash is not the specified function of the entropy delivered by crypto/rand (salt symbols / bytes consumed)"),
+}
 DIRECT_OPS = {"respell": "not-a-respelling", "secretsafe": "secret-dependent-flow", "accepts": "bounds", "sliceeffects": "slice-effect"}
 
 
@@ -285,6 +296,12 @@ def run_suite(pid, suite, tier, seed, workdir, log, replay=None):
                     if len(r["propfails"]) < 50:
                         r["propfails"].append({"kind": "remarshal-unstable", "desc": "re-marshalling an unmarshalled value gave a string that unmarshals differently: " + g.strip(), "input": inp})
                 if g != l:
+                    if (suite, word) in DIRECT_BY_SUITE and word not in DIRECT_OPS:
+                        inp = {"suite": suite, "op": op.strip()[:3000], "implementation": g.strip()[:600], "reference": l.strip()[:600]}
+                        kind, what = DIRECT_BY_SUITE[(suite, word)]
+                        if len(r["propfails"]) < 50:
+                            r["propfails"].append({"kind": kind, "desc": what, "input": inp})
+                        r["stats"]["propfail:" + kind] = r["stats"].get("propfail:" + kind, 0) + 1
                     if word in DIRECT_OPS:
                         # the operation evaluates the property itself on a value the implementation produced:
                         # a disagreement is a concrete failing input, not a modelling gap
